@@ -28,6 +28,7 @@ MANIFEST = {
 }
 
 ADV = ['bad_magic', 'len_over', 'len_zero', 'garbage', 'pre_hello_getblocks', 'pre_hello_data', 'pre_hello_garbage',
+       'pre_hello_valid_tx', 'pre_hello_valid_tx', 'pre_hello_valid_block', 'pre_hello_valid_block',
        'unknown_msg_type', 'bad_version', 'truncated_payload', 'unknown_data_type', 'data_header', 'getdata_tx',
        'getdata_unknown', 'inv_oversize', 'inv_unknown_type', 'struct_block', 'struct_block_response', 'struct_tx',
        'flip_known_block', 'flip_frame', 'splice', 'dup_flood', 'hello_twice', 'peers_weird', 'trailing', 'truncate_then_valid',
@@ -37,7 +38,7 @@ STRUCT_BLOCKS = ['no_txs', 'dup_tx', 'wrong_merkle', 'merkle_dup_last', 'reward_
                  'dup_ref_in_block', 'outs_sum_over_max']
 STRUCT_TX = ['no_outputs', 'out_zero', 'over_max', 'dup_ref', 'null_ref', 'placeholder', 'coinbasedata_sig', 'no_inputs']
 INSTATE = ['sig_other_key', 'reward_plus_one', 'spend_missing', 'outs_exceed_inputs', 'ts_before_parent', 'target_minus_1',
-           'ev_sample', 'height_plus_2']
+           'ev_sample', 'height_plus_2', 'spend_same_block', 'spend_same_block', 'spend_noncurve_key_output', 'dup_ref_in_block']
 
 
 def generate(seed, tier):
@@ -172,6 +173,23 @@ def execute(script):
                 send(frame(hdr() + M.GetBlocksMessage([known_block().hash()]).serialize()))
             elif kind == 'pre_hello_data':
                 send(frame(hdr() + M.DataMessage(M.DATA_BLOCK, known_block()).serialize()))
+            elif kind == 'pre_hello_valid_tx':
+                # out of protocol order, otherwise perfectly valid: must have no effect
+                hb = chain.head()
+                taken = set()
+                for t in expected_pool:
+                    taken |= {(i.output_reference.hash, i.output_reference.index) for i in t.inputs}
+                txs, _, _ = sim.build_txs(hb, [{'ins': [a], 'outs': [[a, 1], [b, 2]], 'fee_ppm': 1000}], taken)
+                if not txs:
+                    return
+                send(frame(hdr() + M.DataMessage(M.DATA_TRANSACTION, txs[0]).serialize()))
+            elif kind == 'pre_hello_valid_block':
+                hb = chain.head()
+                ts = hb.ts + 1
+                if ts > w.node_clock() + 10:
+                    return
+                blk = W.roundtrip(W.mine_honest(W.view_at(sim.cs, hb.id), [], W.key(a % 12), ts, nonce0=b))
+                send(frame(hdr() + M.DataMessage(M.DATA_BLOCK, blk).serialize()))
             elif kind == 'unknown_msg_type':
                 send(frame(hdr() + bytes([a % 256, 7 + b % 200]) + b'\x00' * (a % 40)))
             elif kind == 'bad_version':
